@@ -151,10 +151,12 @@ Fixpoint dict_del (d : mapping) (k : Z) : mapping :=      (* del d[k] *)
   | (k', v') :: r => if k =? k' then r else (k', v') :: dict_del r k
   end.
 Definition dict_update (d m : mapping) : mapping := fold_left (fun d kv => dict_set d (fst kv) (snd kv)) m d.
-(* mapping = match[0].copy(); for m in match[1:]: mapping.update(m) *)
-Definition merge (ms : list mapping) : mapping :=
+(* Isomorphism._get_mapping: mapping = {}; for m in match: mapping.update(m) *)
+Definition merge (ms : list mapping) : mapping := fold_left dict_update ms [].
+(* _get_automorphism_mapping: mapping = match[0].copy(); for m in match[1:]: mapping.update(m) *)
+Definition merge_copy (ms : list mapping) : mapping :=
   match ms with
-  | [] => []                                              (* match[0]: IndexError, handled by the caller *)
+  | [] => []                                              (* match[0]: IndexError; lazy_product is never called without arguments there *)
   | m :: r => fold_left dict_update r m
   end.
 Definition mapping_eqb (a b : mapping) : bool := list_eqb (fun x y => (fst x =? fst y) && (snd x =? snd y)) a b.
@@ -174,16 +176,16 @@ Fixpoint auto_filter (flt : bool) (seen : list (list Z)) (ms : list mapping) : l
       else m :: auto_filter flt seen r
   end.
 
-(* `if searching_scope: candidate = searching_scope.intersection(candidate); if not candidate: continue/break`
-   None = skip this candidate.  An EMPTY scope is falsy: everything is searched. *)
+(* `if searching_scope is not None: candidate = searching_scope.intersection(candidate); if not candidate: continue/break`
+   None = skip this candidate.  An EMPTY scope intersects to nothing: every candidate is skipped. *)
 Definition restrict (scope : option (list Z)) (cand : list Z) : option (list Z) :=
   match scope with
-  | Some ((_ :: _) as s) =>
+  | Some s =>
       match filter (fun x => zmem x s) cand with
       | [] => None
       | c => Some c
       end
-  | _ => Some cand
+  | None => Some cand
   end.
 
 Section Matcher.
@@ -373,8 +375,8 @@ Section Matcher.
                                   | None => []
                                   | Some s => get_mapping c clo o_atoms o_bonds s
                                   end) tcomps)
-    | [] => Err IndexError                                 (* lazy_product() yields (); match[0] raises *)
-    | _ =>
+    | _ =>                                                 (* also the pattern without atoms: permutations(.., 0) = [()],
+                                                              lazy_product() = [()], mapping = {} *)
         Ok (flat_map (fun cands => match build_mappers clo o_atoms o_bonds scope comps cands with
                                    | None => []
                                    | Some mappers => map merge (lazy_product mappers)
@@ -513,7 +515,7 @@ Definition get_automorphism_mapping {B : Type} (beq : B -> B -> bool) (atoms : l
         let nonid := filter (fun mp : mapping => existsb (fun kv => negb (fst kv =? snd kv)) mp) in
         match mappers with
         | [m] => Ok (nonid m)      (* the only generator is exhausted by the first loop: lazy_product adds nothing *)
-        | _ => Ok (nonid (map merge (lazy_product mappers)))
+        | _ => Ok (nonid (map merge_copy (lazy_product mappers)))
         end
     end.
 
